@@ -121,7 +121,7 @@ def gen_cases(ctx):
     return cases
 
 
-FMT_LINES = {"success": ["out"], "failure": ["x"], "allowed-failure": ["x", "y"], "failing-after": ["o"], "interactive": ["asking"]}
+FMT_LINES = {"success": ["out"], "failure": ["x"], "allowed-failure": ["x", "y"], "failing-after": ["o"], "interactive": ["asking"], "complains": ["o", "p"]}
 
 
 def fmt_cases(ctx):
@@ -136,15 +136,18 @@ def fmt_cases(ctx):
         "failing-after": {"commands": ["printf 'o\\n'"], "after": ["exit 9"]},
         # an interactive task is shown raw whatever the selected format; the tasks after it get the selected format again
         "interactive": {"commands": ["printf 'asking\\n'"], "interactive": True},
+        # both streams, then a failure: what is recorded (output, error message, exit code) is the same under every format
+        "complains": {"commands": ["printf 'o\\n'; printf 'e\\n' >&2", "printf 'p\\n'; printf 'q\\n' >&2; exit 4"]},
     }
     cases = []
     for kind, t in kinds.items():
         for fmt in ("raw", "prefixed", "cockpit"):
             tt = dict(t)
             tt["name"] = "k-" + kind
-            cases.append({"id": len(cases), "okind": kind, "format": fmt, "dir": ctx.workdir, "tasks": [tt], "plan": [{"op": "run", "tasks": [0]}]})
+            # (Finish at the end: the output layer is closed after the last task, whatever became of the tasks)
+            cases.append({"id": len(cases), "okind": kind, "format": fmt, "dir": ctx.workdir, "tasks": [tt], "plan": [{"op": "run", "tasks": [0]}, {"op": "finish"}]})
     # several outcomes in one process (the cockpit state is process-wide), repeated: lock-order problems are schedule dependent
-    seqs = [["skipped", "success"], ["success", "skipped", "failure", "failing-before", "success", "success"], ["success"] * 6, ["failure", "success", "allowed-failure"],
+    seqs = [["skipped", "failing-before"], ["complains", "success"], ["skipped", "success"], ["success", "skipped", "failure", "failing-before", "success", "success"], ["success"] * 6, ["failure", "success", "allowed-failure"],
             ["success", "interactive", "success", "failure"]]
     reps = 6 if ctx.tier == "thorough" else 3
     for sq in seqs:
@@ -155,7 +158,7 @@ def fmt_cases(ctx):
                     tt = dict(kinds[k])
                     tt["name"] = "s%d-%s" % (i, k)
                     ts.append(tt)
-                cases.append({"id": len(cases), "okind": "+".join(sq), "format": fmt, "dir": ctx.workdir, "tasks": ts, "plan": [{"op": "run", "tasks": list(range(len(ts)))}], "rep": rep})
+                cases.append({"id": len(cases), "okind": "+".join(sq), "format": fmt, "dir": ctx.workdir, "tasks": ts, "plan": [{"op": "run", "tasks": list(range(len(ts)))}, {"op": "finish"}], "rep": rep})
     return cases
 
 
